@@ -123,6 +123,92 @@ def main():
             dist["depth"][d] = dist["depth"].get(d, 0) + 1
     r.extra["input_distribution"] = dist
 
+    # ---- indexing over DAP4: the dataset opened against the reference server, whole and after a hyperslab in the URL
+    from pydap.client import open_url
+    stats_ix = {"reads": 0, "reads_after_url_hyperslab": 0, "whole_reads_after_url_hyperslab": 0}
+
+    def axis_items(n):
+        ints = list(range(-n, n))
+        bounds = [None] + list(range(-n, n + 3))
+        return ([slice(None)] * 2 + [rng.choice(ints)] + [slice(rng.choice(bounds), rng.choice(bounds), rng.choice([None, 1, 2, 3])) for _ in range(3)])
+
+    def keep(i_):
+        return slice(i_, i_ + 1 or None) if isinstance(i_, int) else i_
+
+    def read_and_compare(proxy, base, idx, info):
+        want = base[tuple(keep(x) for x in idx)]
+        if want.size == 0:
+            return
+        try:
+            got = np.asarray(proxy.data[idx if len(idx) != 1 else idx[0]])
+        except Exception as e:  # noqa
+            if len(direct) < 10:
+                direct.append(dict(info, law="a non-empty in-domain index can be read over DAP4", index=repr(idx), error=repr(e)[:300]))
+            return
+        if got.shape != want.shape or got.dtype.newbyteorder("=") != want.dtype.newbyteorder("=") or canon(got) != canon(want):
+            if len(direct) < 10:
+                direct.append(dict(info, law="indexing a variable opened over DAP4 returns exactly the numpy-selected elements",
+                                   index=repr(idx), got_shape=list(got.shape), want_shape=list(want.shape),
+                                   got=canon(got)[:12], want=canon(want)[:12], query=app4.seen[-1][1]))
+
+    for i in range(40 if T == "quick" else 400):
+        root = D.gen_dataset(rng)
+        vs = [v for v in D.variables(root)]
+        app4 = D.Dap4App(root, little=rng.random() < 0.5, chunk_sizes=[rng.choice([3, 7, 64])] * 3, flag_all=rng.random() < 0.6)
+        try:
+            c4 = open_url("http://localhost:8001/", application=app4, protocol="dap4")
+        except Exception as e:  # noqa
+            direct.append({"law": "dataset opens over DAP4", "dmr": D.render_dmr(root).decode(), "error": repr(e)[:300]})
+            continue
+        for v in vs:
+            if not v.shape:
+                continue
+            key = v.path.lstrip("/")
+            info = {"dmr": D.render_dmr(root).decode(), "variable": v.path}
+            try:
+                proxy = c4[key]
+            except Exception as e:  # noqa
+                direct.append(dict(info, law="a declared variable is a member of the opened dataset", error=repr(e)[:200]))
+                continue
+            if tuple(proxy.shape) != v.shape:
+                direct.append(dict(info, law="the opened dataset declares the served shape", got=list(proxy.shape), want=list(v.shape)))
+                continue
+            for _ in range(3):
+                idx = tuple(rng.choice(axis_items(n)) for n in v.shape)
+                r.count(("dap4-index", i, v.path, repr(idx)))
+                stats_ix["reads"] += 1
+                read_and_compare(proxy, v.values, idx, info)
+        # one variable opened with a hyperslab in the URL: [0:1:k] looks like 'no constraint' but bounds the axis
+        ranked = [v for v in vs if v.shape]
+        if ranked:
+            v = rng.choice(ranked)
+            pre = []
+            for n in v.shape:
+                if rng.random() < 0.6:
+                    pre.append((0, 1, rng.randrange(n)))
+                else:
+                    a_ = rng.randrange(n)
+                    pre.append((a_, rng.randint(1, 2), rng.randrange(a_, n)))
+            slab = "".join("[%d:%d:%d]" % t for t in pre)
+            base = v.values[tuple(slice(a_, b_ + 1, s_) for a_, s_, b_ in pre)]
+            info = {"dmr": D.render_dmr(root).decode(), "variable": v.path, "url_constraint": slab}
+            try:
+                c5 = open_url("http://localhost:8001/?dap4.ce=/%s%s" % (v.path.lstrip("/"), slab), application=app4, protocol="dap4")
+                proxy = c5[v.path.lstrip("/")]
+                if tuple(proxy.shape) != base.shape:
+                    direct.append(dict(info, law="a DAP4 dataset opened with a hyperslab declares the constrained shape",
+                                       got=list(proxy.shape), want=list(base.shape)))
+                else:
+                    for idx in [tuple(slice(None) for _ in base.shape), tuple(slice(0, n) for n in base.shape),
+                                tuple(rng.choice(axis_items(n)) for n in base.shape)]:
+                        r.count(("dap4-index-pre", i, v.path, slab, repr(idx)))
+                        stats_ix["reads_after_url_hyperslab"] += 1
+                        stats_ix["whole_reads_after_url_hyperslab"] += all(x == slice(None) for x in idx)
+                        read_and_compare(proxy, base, idx, info)
+            except Exception as e:  # noqa
+                direct.append(dict(info, law="dataset opens over DAP4 with a hyperslab in the URL", error=repr(e)[:300]))
+    r.extra["indexing"] = stats_ix
+
     # large chunks: sizes beyond 2^16 (and beyond 2^17) exercise the 24-bit size field
     for little in (True, False):
         root = D.Node("big")
@@ -188,7 +274,8 @@ def main():
         "the DMR text -> variable list (declaration order, type, element count) step is pydap's DMR parser (property C11); the model "
         "receives the declared variable list",
         "little-endian host (decode_chunktype branches on sys.byteorder)",
-        "indexing over DAP4 against the reference server is exercised by the C02 check",
+        "indexing over DAP4: a sample of index forms per generated variable here; the exhaustive index forms and the request text "
+        "correspondence are the C02 check's",
     ]
     r.finish()
 
